@@ -6,7 +6,7 @@ export GOFLAGS=-mod=mod GOPROXY=off GOSUMDB=off GOTOOLCHAIN=local
 cd "$VERIF"
 mkdir -p build evidence replays
 if [ -d gen ]; then (cd gen && go run . -repo "${VERIF_REPO:-/repo}" -out "$VERIF/lean/TakVerif/Generated"); fi
-(cd lean && lake build)
+(cd lean && lake build && lake build $(ls TakVerif/Props/*.lean | sed 's#/#.#g; s#\.lean$##'))
 cp lean/.lake/build/bin/driver build/driver.good
 bin/build-harness.sh
 echo setup-ok
